@@ -701,6 +701,17 @@ class Exec:
             return self._value(n.ns('args')[0], st, fr)
         if q == '__assert_fail' or q.endswith('::__assert_fail'):
             st.events.append(('assert_fail', n, None)); return None
+        if q == 'std::exchange' and len(n.ns('args')) == 2 and n.ns('args')[0] is not None:
+            a0, a1 = n.ns('args')
+            loc = self.loc_of(a0, st, fr)
+            if loc is None:
+                v0 = self._value(a0, st, fr)
+                loc = v0.loc if isinstance(v0, Ref) else None
+            if loc is not None:
+                old = self.read(loc, st, a0)
+                new = self._rvalue(a1, st, fr)
+                self.write(loc, new, st, n)
+                return old
         mc = d.get('mclass') or ''
         if mc.startswith(('std::atomic', 'std::__atomic_base')):
             # std::atomic<T> member operations are reads / writes of the location
